@@ -64,6 +64,9 @@ func (L *Layout) CellSort(t types.Type) string {
 	if n, ok := t.(*types.Named); ok && n.Obj().Name() == "ghostint" {
 		return "GInt"
 	}
+	if n, ok := t.(*types.Named); ok && n.Obj().Name() == "ghostlock" {
+		return "GLock"
+	}
 	switch u := t.Underlying().(type) {
 	case *types.Basic:
 		switch {
@@ -244,7 +247,7 @@ func (L *Layout) ranges(t types.Type, base int64, out *[]CellRange) {
 // zero value term of a cell sort
 func (L *Layout) Zero(sort string) string {
 	switch sort {
-	case "Int", "GInt", "GOwn":
+	case "Int", "GInt", "GOwn", "GLock":
 		return "0"
 	case "Bool":
 		return "false"
